@@ -54,8 +54,9 @@ def extract(g, X):
         (w,) = [cap for _, cap in X.min_consts(b, r"self\.len\(\)")]
         # the marker is searched with windows(<marker>.len()).position(|w| w == <marker>) — the marker named or written out
         H = r'(HEADER|b"(?:\\.|[^"\\])*"|&?\[[^\]]*\])'
-        ms = re.search(r"\.windows\(\s*" + H + r"\.len\(\)\s*\)\s*\.position\(\s*\|(\w+)\|\s*\2\s*==\s*" + H + r"\s*\)", b)
-        if not ms or X.byte_string(ms.group(1), b, backend) != h or X.byte_string(ms.group(3), b, backend) != h:
+        ms = re.search(r"\.windows\(\s*(?:" + H + r"\.len\(\)|(\d+))\s*\)\s*\.position\(\s*\|(\w+)\|\s*\3\s*==\s*" + H + r"\s*\)", b)
+        wlen = ms and (int(ms.group(2)) if ms.group(2) else len(X.byte_string(ms.group(1), b, backend)))
+        if not ms or wlen != len(h) or X.byte_string(ms.group(4), b, backend) != h:
             raise ValueError("search is no longer windows().position(== HEADER)")
         return cl(h), str(w)
     g.attempt([("xr_header", "list N"), ("xr_header_window", "N")], "backend.rs:locate_start_offset", header)
